@@ -39,9 +39,9 @@ Accepts(d) ==
 (* include() directive classes *)
 IncludeCls == {"ok", "okprojectrelative", "wrongext", "missing", "outside", "outsideviasymlink", "definestask", "includes",
                "definestask_exp", "definestask_group", "definestask_combine", "definestask_macro",
-               "ok_two_combines", "ok_combine_twice",
+               "ok_two_combines", "ok_combine_twice", "ok_long_chain", "ok_long_group",
                "raises", "syntaxerror"}
-IncludeAccepts(c) == c \in {"ok", "okprojectrelative", "ok_two_combines", "ok_combine_twice"}
+IncludeAccepts(c) == c \in {"ok", "okprojectrelative", "ok_two_combines", "ok_combine_twice", "ok_long_chain", "ok_long_group"}
 
 (* Python-level failures of the COND file itself: always rejected, cleanly *)
 PyFailCls == {"raise_value", "raise_zerodiv", "raise_key", "raise_custom", "syntax", "name", "recursion", "notutf8",
